@@ -73,3 +73,5 @@ pub broadcast axiom fn bytes_from_bytesmut_view(b: BytesMut) ensures (#[trigger]
 impl From<BytesMut> for Bytes { #[verifier::external_body] fn from(b: BytesMut) -> Bytes { unimplemented!() } }
 // u64::from_be_bytes
 #[verifier::external_body] pub fn u64_from_be_bytes(b: [u8; 8]) -> (r: u64) ensures r == be64(b@) { unimplemented!() }
+pub broadcast proof fn subrange_full(s: Seq<u8>) ensures #[trigger] s.subrange(0, s.len() as int) == s { assert(s.subrange(0, s.len() as int) =~= s); }
+pub broadcast proof fn empty_prefix(s: Seq<u8>) ensures #[trigger] (Seq::<u8>::empty() + s) == s { assert(Seq::<u8>::empty() + s =~= s); }
